@@ -104,9 +104,81 @@ func (c *Ctx) ruleGrammar(rule string) {
 		}
 	}
 	c.groupNameClause(rule)
+	c.blankInputClause(rule)
 	if n == 0 {
 		c.R.Note("%s: the unit parser no longer builds a regexp from templates; clause withdrawn for this run", rule)
 		c.R.Unresolved(rule, "regexp templates of the unit parser")
+	}
+}
+
+// blankInputClause: when every template of the grammar can match the empty string (all unit groups are optional), the
+// assembled grammar matches a blank input with all groups empty, which the accumulation turns into 0 - a number for a
+// string that denotes none. The match must then be preceded, on every path, by a test that a whitespace-trimmed copy
+// of the input is not empty.
+func (c *Ctx) blankInputClause(rule string) {
+	for _, fn := range c.unitFuncs() {
+		var match *ssa.Call
+		for _, b := range fn.Blocks {
+			for _, in := range b.Instrs {
+				if call, ok := in.(*ssa.Call); ok && strings.HasPrefix(core.StaticCalleeName(&call.Call), "(*regexp.Regexp).Find") {
+					match = call
+				}
+			}
+		}
+		if match == nil {
+			continue
+		}
+		// can the grammar match without a digit? all templates of the compiling function(s) optional
+		allOptional, seen := true, 0
+		for _, g := range c.unitFuncs() {
+			for _, b := range g.Blocks {
+				for _, in := range b.Instrs {
+					call, ok := in.(*ssa.Call)
+					if !ok || core.StaticCalleeName(&call.Call) != "fmt.Sprintf" {
+						continue
+					}
+					tmpl, ok := core.ConstString(call.Call.Args[0])
+					if !ok || !strings.Contains(tmpl, "(?P<") {
+						continue
+					}
+					seen++
+					re, err := syntax.Parse(strings.NewReplacer("%s", "X", "%d", "1").Replace(tmpl), syntax.Perl)
+					if err != nil || minLen(re) > 0 {
+						allOptional = false
+					}
+				}
+			}
+		}
+		k := key(rule, c.M.Key(fn), "a blank input is rejected before the grammar is applied")
+		if seen == 0 || !allOptional {
+			c.R.Ok(rule, k, c.M.InstrPos(match), "match of the unit grammar", "the grammar needs at least one count")
+			continue
+		}
+		est := func(cond core.Cond) bool {
+			bo, ok := cond.V.(*ssa.BinOp)
+			if !ok || (bo.Op != token.EQL && bo.Op != token.NEQ) {
+				return false
+			}
+			var other ssa.Value
+			if s, isC := core.ConstString(bo.Y); isC && s == "" {
+				other = bo.X
+			} else if s, isC := core.ConstString(bo.X); isC && s == "" {
+				other = bo.Y
+			} else {
+				return false
+			}
+			tc, ok := other.(*ssa.Call)
+			if !ok || core.StaticCalleeName(&tc.Call) != "strings.TrimSpace" {
+				return false
+			}
+			return (bo.Op == token.NEQ) == cond.True
+		}
+		if core.MustHold(fn, est)[match.Block()] {
+			c.R.Ok(rule, k, c.M.InstrPos(match), "match of the unit grammar", "every template is optional, and on every path a whitespace-trimmed copy of the input was found non-empty first")
+		} else {
+			c.R.Bad(rule, k, c.M.InstrPos(match), "a blank string reaches a grammar all of whose groups are optional",
+				"\" \" (or a tab, a newline) matches with every group empty and is accumulated to 0: a unit-bearing integer, float or enum schema accepts a string that denotes no number")
+		}
 	}
 }
 
@@ -639,6 +711,40 @@ func (c *Ctx) ruleSibling(rule string) {
 		} else {
 			c.R.Bad(rule, k, bad, "the integer formatter converts the amount to float64",
 				"above 2^53 the conversion rounds; the floor of the float quotient can exceed the true quotient, the remainder becomes negative and the output (\"13PB-1TB1023GB...\") cannot be parsed back")
+		}
+	}
+	// the parser's integer result is the exact integer accumulator: the float accumulator has lost the low bits of totals
+	// above 2^53, so converting it back (even behind a "it is whole" round-trip test, which a rounded float always passes)
+	// returns a neighbouring number
+	if pi := c.M.FuncByKey["schema.UnitsDefinition.ParseInt"]; pi != nil {
+		scope := c.M.Reachable([]*ssa.Function{pi}, func(f *ssa.Function) bool {
+			return !strings.HasSuffix(strings.SplitN(c.M.Pos(f.Pos()), ":", 2)[0], "schema/units.go")
+		})
+		k := key(rule, "schema.UnitsDefinition.ParseInt", "the integer result never comes from a float")
+		bad := ""
+		for _, f := range c.M.SortedFuncs(scope) {
+			if !strings.HasSuffix(strings.SplitN(c.M.Pos(f.Pos()), ":", 2)[0], "schema/units.go") {
+				continue
+			}
+			for _, b := range f.Blocks {
+				for _, in := range b.Instrs {
+					cv, ok := in.(*ssa.Convert)
+					if !ok {
+						continue
+					}
+					from, ok1 := cv.X.Type().Underlying().(*types.Basic)
+					to, ok2 := cv.Type().Underlying().(*types.Basic)
+					if ok1 && ok2 && from.Info()&types.IsFloat != 0 && to.Info()&types.IsInteger != 0 {
+						bad = c.M.InstrPos(cv)
+					}
+				}
+			}
+		}
+		if bad == "" {
+			c.R.Ok(rule, k, c.M.Pos(pi.Pos()), "integer unit parser", "no float-to-integer conversion on the way from ParseInt through the unit code")
+		} else {
+			c.R.Bad(rule, k, bad, "the integer parser converts a float to an integer",
+				"the float accumulator is inexact above 2^53: \"9007199254740993.0B\" comes back as 9007199254740992 - a wrong number instead of an error")
 		}
 	}
 	c.R.Floor(rule, 4)
